@@ -23,6 +23,16 @@ impl HasKey<Secret> for V4 {
     type Key = SecretKey;
 
     fn decode(bytes: &[u8]) -> Result<SecretKey, PasetoError> {
+        // `SecretKey::from_bytes` checks the length only: the second half must be the public key
+        // of the seed in the first half, otherwise signatures made with this key do not verify
+        // under its own `public_key()`.
+        let (seed, public_key) = bytes
+            .split_first_chunk::<32>()
+            .ok_or(PasetoError::InvalidKey)?;
+        let expected = crypto_sign::keypair_from_seed(seed).map_err(|_| PasetoError::InvalidKey)?;
+        if expected.public_key.as_bytes()[..] != *public_key {
+            return Err(PasetoError::InvalidKey);
+        }
         crypto_sign::SecretKey::from_bytes(bytes)
             .map(SecretKey)
             .map_err(|_| PasetoError::InvalidKey)
